@@ -17,12 +17,12 @@ import (
 // uses). For programs without duplicate or cyclic definitions the parser's output must equal
 // the full textual substitution, must contain no definition line, and must be the same in
 // every one of 16 fresh runs (map iteration orders are sampled, not enumerated).
-//@ directive[C07,C03] bounded BoundedDefinitions quick=4 thorough=5 tokens="##!> define a x{{b}}\n" "##!> define b y{{c}}\n" "##!> define c z\n" "p{{a}}q{{b}}\n" "k{{u}}{{c}}\n"
+//@ directive[C07,C03] bounded BoundedDefinitions quick=4 thorough=5 tokens="##!> define a x{{b}}\n" "##!> define b y{{c}}\n" "##!> define c z\n" "p{{a}}q{{b}}\n" "k{{u}}{{c}}\n" "##!^ <{{b}}\n" "##!$ {{a}}>\n"
 
 func BoundedDefinitions(in string) string {
 	zerolog.SetGlobalLevel(zerolog.Disabled)
 	defs := map[string]string{}
-	var uses []string
+	var uses, prefixes, suffixes []string
 	for _, l := range strings.Split(in, "\n") {
 		if l == "" {
 			continue
@@ -33,9 +33,21 @@ func BoundedDefinitions(in string) string {
 				return "" // duplicate definitions: outside the property's domain
 			}
 			defs[f[2]] = f[3]
+		} else if strings.HasPrefix(l, "##!^ ") {
+			prefixes = append(prefixes, l[5:])
+		} else if strings.HasPrefix(l, "##!$ ") {
+			suffixes = append(suffixes, l[5:])
 		} else {
 			uses = append(uses, l)
 		}
+	}
+	subst := func(u string) string {
+		for i := 0; i < 8; i++ {
+			for n, v := range defs {
+				u = strings.ReplaceAll(u, "{{"+n+"}}", v)
+			}
+		}
+		return u
 	}
 	// reference result: substitute until nothing defined remains (definitions are acyclic here)
 	var want strings.Builder
@@ -51,6 +63,16 @@ func BoundedDefinitions(in string) string {
 		ctx := processors.NewContext(context.New("/nonexistent-root", "toolchain.yaml"))
 		p := NewParser(ctx, strings.NewReader(in))
 		out, _ := p.Parse(false)
+		for i, x := range prefixes {
+			if i >= len(p.Prefixes) || p.Prefixes[i] != subst(x) {
+				return "prefix line " + strconvQuote(x) + " not expanded: " + strconvQuote(strings.Join(p.Prefixes, "|"))
+			}
+		}
+		for i, x := range suffixes {
+			if i >= len(p.Suffixes) || p.Suffixes[i] != subst(x) {
+				return "suffix line " + strconvQuote(x) + " not expanded: " + strconvQuote(strings.Join(p.Suffixes, "|"))
+			}
+		}
 		if out.String() != want.String() {
 			return "run " + string(rune('0'+run%10)) + ": parser output " + strconvQuote(out.String()) + ", textual substitution gives " + strconvQuote(want.String())
 		}
